@@ -277,6 +277,45 @@ func (vc *VC) applyContract(st *State, fr *Frame, c *Contract, calleeName string
 	}
 	// havoc what the contract allows to change; everything else allocated before the call is kept
 	pols := vc.modPolicyOf(c)
+	// call-site resolved items: elemsof(param) / pointee(param)
+	for _, mi := range c.Modifies {
+		ne, ok := names[mi.Path]
+		if !ok {
+			continue
+		}
+		switch mi.Kind {
+		case "elemsof":
+			sl, ok := ne.V.(SliceV)
+			st2, ok2 := ne.T.Underlying().(*types.Slice)
+			if !ok || !ok2 {
+				sfail("elemsof(%s): not a slice", mi.Path)
+			}
+			for _, l := range vc.leaves(st2.Elem()) {
+				n, _ := vc.elemArr(typeKey(st2.Elem()), l.Path, l)
+				if pols[n] == nil {
+					pols[n] = &modPolicy{}
+				}
+				pols[n].at = append(pols[n].at, &EIdent{Name: mi.Path})
+			}
+			_ = sl
+		case "pointee":
+			iv, ok := ne.V.(IfaceV)
+			if !ok || iv.Dyn == nil {
+				sfail("pointee(%s): dynamic type of the interface value is not statically known", mi.Path)
+			}
+			pt, ok := iv.Dyn.Underlying().(*types.Pointer)
+			if !ok {
+				sfail("pointee(%s): dynamic type is not a pointer", mi.Path)
+			}
+			for _, l := range vc.leaves(pt.Elem()) {
+				n, _ := vc.fieldArr(ownerKey(pt.Elem()), l.Path, l)
+				if pols[n] == nil {
+					pols[n] = &modPolicy{}
+				}
+				pols[n].at = append(pols[n].at, &ECall{Fn: "payload", Args: []Expr{&EIdent{Name: mi.Path}}})
+			}
+		}
+	}
 	var arrs []string
 	for a := range pols {
 		arrs = append(arrs, a)
